@@ -73,6 +73,12 @@ theorem mulPow2Val_eq (k v : W) (h1 : BitVec.sle (-63#64) k) (h2 : BitVec.sle k 
     sll_epi64, srli_epi64, cvtsi32_si128, cmpgt_epi64, setzero_si256, allOnes]
   bv_decide
 
+/-- the conditional negate of `znx_automorphism_avx`: `(vals ^ sign_mask) - sign_mask` -/
+theorem condNegate_eq (v t m : W) :
+    sub_epi64 (xor_si256 v (cmpgt_epi64 t m)) (cmpgt_epi64 t m) = if BitVec.slt m t then -v else v := by
+  simp only [sub_epi64, xor_si256, cmpgt_epi64, allOnes]
+  bv_decide
+
 /-! ### loop structure -/
 
 theorem mainIdx_eq (n : Nat) : mainIdx n = List.range (4 * (n / 4)) := by
@@ -139,6 +145,92 @@ theorem ext4_snd (a : W) : (ext4 a).2 = hi (sext a) := by
   bv_decide
 theorem join_lo_hi (a : W128) : join (lo a) (hi a) = a := by
   simp only [join, lo, hi]
+  bv_decide
+
+/-! ### the `nfc_*` chunks: `i128` normalisation on split lanes (block lemmas by `bv_decide`, then rewriting) -/
+
+theorem dig128 (b : W) (v : W128) (h1 : 1#64 ≤ b) (h2 : b ≤ 64#64) :
+    getDigit128 b v = sext (digExtract (b.truncate 32) (lo v)) := by
+  simp only [digExtract, getDigit128, rshl128, rsar128, lo, sext, sra_epi64, srai_epi32_31, shuffle_epi32_F5, srl_epi64, sll_epi64, cvtsi64_si128, cmpeq_epi64, or_si256, and_si256, allOnes]
+  bv_decide
+theorem lo_sext (w : W) : lo (sext w) = w := by
+  simp only [lo, sext]; bv_decide
+theorem lo_add (a b : W128) : lo (a + b) = lo a + lo b := by
+  simp only [lo]; bv_decide
+theorem lo_shl (w lsh : W) (h : lsh < 64#64) : lo (rshl128 (sext w) lsh) = sll_epi64 w (cvtsi64_si128 (lsh.truncate 32)) := by
+  simp only [lo, rshl128, sext, sll_epi64, cvtsi64_si128]; bv_decide
+theorem shl_zero (d : W128) : rshl128 d 0#64 = d := by
+  simp only [rshl128]; bv_decide
+theorem trunc_bl (b lsh : W) : (bLsh b lsh).truncate 32 = b.truncate 32 - lsh.truncate 32 := by
+  unfold bLsh; by_cases h : lsh = 0#64
+  · subst h; simp
+  · simp only [h, if_false]; bv_decide
+theorem bl_ok (b lsh : W) (h1 : 1#64 ≤ b) (h2 : b ≤ 64#64) (h3 : lsh < b) : 1#64 ≤ bLsh b lsh ∧ bLsh b lsh ≤ 64#64 ∧ lsh < 64#64 := by
+  unfold bLsh; by_cases h : lsh = 0#64
+  · subst h; simp only [if_true]; exact ⟨h1, h2, by decide⟩
+  · simp only [h, if_false]; bv_decide
+
+theorem sll_zero (w : W) : sll_epi64 w (cvtsi64_si128 (BitVec.truncate 32 (0#64))) = w := by
+  simp only [sll_epi64, cvtsi64_si128]; bv_decide
+
+theorem finalChunk_eq (b lsh r : W) (c : W128) (h1 : 1#64 ≤ b) (h2 : b ≤ 64#64) (h3 : lsh < b) :
+    finalChunk (mkShifts b lsh) r (lo c) = Ref128.finalCore b lsh r c := by
+  obtain ⟨k1, k2, k3⟩ := bl_ok b lsh h1 h2 h3
+  have e : BitVec.signExtend 128 r = sext r := rfl
+  unfold Ref128.finalCore finalChunk mkShifts
+  by_cases h0 : lsh = 0#64
+  · subst h0
+    simp only [if_true, e, dig128 _ _ k1 k2, dig128 b _ h1 h2, lo_sext, lo_add, trunc_bl, add_epi64, sll_zero]
+  · simp only [h0, if_false, e, dig128 _ _ k1 k2, dig128 b _ h1 h2, lo_sext, lo_add, lo_shl _ _ k3, trunc_bl, add_epi64]
+theorem split_sext (w : W) : join w (sra_epi64 w 63#32) = sext w := by
+  simp only [join, sext, sra_epi64, srai_epi32_31, shuffle_epi32_F5, srl_epi64, sll_epi64, cvtsi64_si128, cmpeq_epi64, or_si256, and_si256, allOnes]
+  bv_decide
+theorem split_sub (al ah bl bh : W) :
+    join (sub_epi64 al bl) (sub_epi64 (sub_epi64 ah bh) (ugtOne bl al)) = join al ah - join bl bh := by
+  simp only [join, ugtOne, msb, sub_epi64, xor_si256, cmpgt_epi64, setzero_si256, allOnes]
+  bv_decide
+theorem split_add (al ah bl bh : W) :
+    join (add_epi64 al bl) (add_epi64 (add_epi64 ah bh) (ugtOne al (add_epi64 al bl))) = join al ah + join bl bh := by
+  simp only [join, ugtOne, msb, add_epi64, sub_epi64, xor_si256, cmpgt_epi64, setzero_si256, allOnes]
+  bv_decide
+theorem split_sar (k xl xh : W) (h1 : 1#64 ≤ k) (h2 : k ≤ 64#64) :
+    join (or_si256 (srl_epi64 xl (cvtsi64_si128 (k.truncate 32))) (sll_epi64 xh (cvtsi64_si128 (64#32 - k.truncate 32))))
+      (sra_epi64 xh (k.truncate 32)) = rsar128 (join xl xh) k := by
+  simp only [join, rsar128, sra_epi64, srai_epi32_31, shuffle_epi32_F5, srl_epi64, sll_epi64, cvtsi64_si128, cmpeq_epi64, or_si256, and_si256, allOnes]
+  bv_decide
+theorem split_shl_digit (b lsh x : W) (h1 : 1#64 ≤ b) (h2 : b ≤ 64#64) (h3 : lsh < b) :
+    rshl128 (sext (digExtract (b.truncate 32 - lsh.truncate 32) x)) lsh
+      = sext (sll_epi64 (digExtract (b.truncate 32 - lsh.truncate 32) x) (cvtsi64_si128 (lsh.truncate 32))) := by
+  simp only [rshl128, sext, digExtract, sra_epi64, srai_epi32_31, shuffle_epi32_F5, srl_epi64, sll_epi64, cvtsi64_si128, cmpeq_epi64, or_si256, and_si256, allOnes]
+  bv_decide (config := { timeout := 60 })
+
+theorem lo_join (l h : W) : lo (join l h) = l := by
+  simp only [lo, join]; bv_decide
+theorem hi_join (l h : W) : hi (join l h) = h := by
+  simp only [hi, join]; bv_decide
+
+theorem middleChunk_eq (b lsh : W) (v c : W128) (h1 : 1#64 ≤ b) (h2 : b ≤ 64#64) (h3 : lsh < b) :
+    Vec128.middleCore b lsh v c = Ref128.middleCore b lsh v c := by
+  obtain ⟨k1, k2, k3⟩ := bl_ok b lsh h1 h2 h3
+  have hv := join_lo_hi v
+  have hc := join_lo_hi c
+  generalize lo v = vl at hv
+  generalize hi v = vh at hv
+  generalize lo c = cl at hc
+  generalize hi c = ch at hc
+  subst hv; subst hc
+  have hsh : ∀ d : W128, (if lsh = 0#64 then d else rshl128 d lsh) = rshl128 d lsh := by
+    intro d; by_cases h : lsh = 0#64
+    · subst h; simp only [if_true, shl_zero]
+    · simp only [h, if_false]
+  unfold Vec128.middleCore Ref128.middleCore middleChunk mkShifts
+  simp only [getCarry128, hsh, dig128 _ _ k1 k2, dig128 b _ h1 h2, lo_join, hi_join, trunc_bl]
+  simp only [split_shl_digit b lsh _ h1 h2 h3]
+  simp only [← split_sext, ← split_sub, ← split_add, ← split_sar _ _ _ k1 k2, ← split_sar b _ _ h1 h2, lo_join, trunc_bl]
+
+theorem hi_sext (w : W) : hi (sext w) = sra_epi64 w 63#32 := by
+  simp only [hi, sext, sra_epi64, srai_epi32_31, shuffle_epi32_F5, srl_epi64, sll_epi64, cvtsi64_si128, cmpeq_epi64,
+    or_si256, and_si256, allOnes]
   bv_decide
 
 /-- the `i64` and the `i128` rounding shifts agree on sign-extended inputs with two bits of head-room -/
